@@ -1,9 +1,9 @@
 SPECIFICATION Spec
 CONSTANTS
   MaxS = 1
-  EDepth = 0
+  EDepth = 1
   SDepth = 0
-  Shapes = {""}
+  Shapes = {"", "H"}
   Mod = 1
   NCalls = 6
   Wide = FALSE
